@@ -11,7 +11,8 @@
    Anchors: pkg/goDB/DBWorkManager.go (walkDB, CreateWorkerJobs, readBlocksAndEvaluate, ReadMetadata),
    pkg/goDB/storage/gpfile/gpdir.go (Open with the ENOENT -> recoverDirPath -> re-Open loop,
    ReadBlockAtIndex with the re-Open/retry loop - both AFTER the C30 fixes: the retry is repeated for as long
-   as the recovered path differs from the one that failed; columns already open stay open), gpfile.go (open, ReadBlockAtIndex).
+   as the recovered path differs from the one that failed (= the name the column handle was created under);
+   columns already open stay open), gpfile.go (open, ReadBlockAtIndex).
 
    Abstractions: those of C04 (abstract contents and names, no codec); the calendar (which month directory
    holds a day) is an input (`cal`, taken from the write-outs); the query window contains all data. *)
@@ -97,10 +98,11 @@ Definition find_day (k : dkey) (l : list (dkey * option totals)) : option (optio
   match find (fun e => keqb k (fst e)) l with Some e => Some (snd e) | None => None end.
 Definition month_of (c : cal) (k : dkey) : obs := QMonth (fst k) (fst (cal_get c (snd k))) (snd (cal_get c (snd k))).
 
-Definition reopen (g : gdir) (c : nat) (k : option (gdir * meta * list abyte) -> prog) : prog :=
+(* failed = the directory name under which the column file could not be opened (the handle's name) *)
+Definition reopen (failed : option totals) (g : gdir) (c : nat) (k : option (gdir * meta * list abyte) -> prog) : prog :=
   OpenM OTry g (fun r => match r with
                          | None => k None
-                         | Some (g', m') => ReadC (RTry2 (gp g)) g' m' c k
+                         | Some (g', m') => ReadC (RTry2 failed) g' m' c k
                          end).
 
 (* the observation a program makes in its next step *)
@@ -139,15 +141,15 @@ Definition rstep_ans (p : prog) (a : ans) : prog + result :=
     | AMeta (Some None) => inl (k None)
     | _ => if otot_eqb (gp g) failed then inl (k None) else inl (OpenM ORec g k)
     end
-  | ReadC (RTry _) g m col k =>
+  | ReadC (RTry hp) g m col k =>
     match a with
     | ACol (Some f) => inl (k (Some (g, m, f)))
-    | _ => inl (reopen g col k)
+    | _ => inl (reopen hp g col k)
     end
   | ReadC (RTry2 failed) g m col k =>
     match a with
     | ACol (Some f) => inl (k (Some (g, m, f)))
-    | _ => if otot_eqb (gp g) failed then inl (k None) else inl (reopen g col k)
+    | _ => if otot_eqb (gp g) failed then inl (k None) else inl (reopen (gp g) g col k)
     end
   end.
 
